@@ -112,6 +112,7 @@ def run(ctx):
     ctx.trusted += ["export of support patterns (|x| > 1e-12 max|x| per site tensor) and labels by harness/impl/c06_num.py, rendering as Coq terms by harness/c06.py",
                     "entries below the 1e-12 relative threshold are treated as zero (floating point; modelled, not verified)",
                     "dense oracle in harness/impl/c06_num.py (search only)",
+                    "operator label invariant and kernel contracts decided by dense NumPy in harness/impl/c06_check.py, c06_oplab.py, c06_svdqn.py (search only); operator supports exported with the (up, down) pair merged into one physical index",
                     "tree exports by harness/impl/c06_tree.py (supports as index tuples, node labels) and mask exports by c06_mask.py",
                     "PARTIAL: tree gauge moves / compress / 2-site updates have no label theorem (their outputs are decided by the proved-sound tree checker)"]
     ok_build, log = ctx.coq_make(["Proofs/QnProofs.vo", "Proofs/QnMaskProofs.vo", "Proofs/TtnsQnProofs.vo", "Proofs/TtnsQnMoves.vo"])
@@ -174,6 +175,28 @@ def run(ctx):
             continue
         mcases += r["cases"]
 
+    # operator labels (constructed and after try_swap_site) and multi-component kernels / state-averaged DMRG
+    ores = ctx.impl_par("c06_oplab.py", [{"seed": ctx.rng.randrange(10 ** 6), "ncases": 40 if quick else 400, "out": "%s/oplab_%d.json" % (tmp, i)} for i in range(4)], timeout=900)
+    kres = ctx.impl_par("c06_svdqn.py", [{"seed": ctx.rng.randrange(10 ** 6), "ncases": 120 if quick else 1500, "nsa": 5 if quick else 40, "out": "%s/svdqn_%d.json" % (tmp, i)} for i in range(3)], timeout=900)
+    ostats = {"operators": 0, "operator_cases_by_kind": {}, "qr_swap_assertions": 0, "kernel_cases": 0, "state_averaged_runs": 0, "state_averaged_states": 0}
+    oexports = []
+    for (rc, r, out) in list(ores) + list(kres):
+        r = C3.load_result(r)
+        if r is None:
+            crashed.append(out[-800:])
+            continue
+        oexports += r["exports"]
+        for fl in r["failures"]:
+            fails.setdefault(fl["key"], fl)
+        st_ = r["stats"]
+        ostats["operators"] += st_.get("cases", 0)
+        ostats["qr_swap_assertions"] += st_.get("swap_assertion_qr", 0)
+        ostats["kernel_cases"] += st_.get("kernel_cases", 0)
+        ostats["state_averaged_runs"] += st_.get("sa_cases", 0)
+        ostats["state_averaged_states"] += st_.get("sa_states", 0)
+        for a_, b_ in st_.get("by_kind", {}).items():
+            ostats["operator_cases_by_kind"][a_] = ostats["operator_cases_by_kind"].get(a_, 0) + b_
+
     tmres = ctx.impl_par("c06_tmask.py", [{"seed": ctx.rng.randrange(10 ** 6), "ncases": 50 if quick else 500, "out": "%s/tmask_%d.json" % (tmp, i)} for i in range(3)], timeout=600)
     tmcases = []
     for (rc, r, out) in tmres:
@@ -202,6 +225,7 @@ def run(ctx):
     if ok_build:
         files = []
         per = 60
+        exports = exports + oexports
         for i in range(0, len(exports), per):
             files.append(("num_%03d" % (i // per), cases_file(exports[i:i + per])))
         peri = 20
@@ -279,8 +303,11 @@ def run(ctx):
         if key in seen:
             continue
         seen.add(key)
-        repro = (e["repro_lines"] + "import json\nsys.path.insert(0, '/verif/harness/impl')\nimport c06_check\n"
-                 "sys.exit(c06_check.labels_describe_blocks(%s, sites))\n" % e["name"])
+        if "is_op" in e:
+            repro = (e["repro_lines"] + "import c06_check\nsys.exit(c06_check.%s(%s))\n" % ("op_labels_describe_blocks" if e["is_op"] else "labels_describe_blocks_model", e["name"]))
+        else:
+            repro = (e["repro_lines"] + "import json\nsys.path.insert(0, '/verif/harness/impl')\nimport c06_check\n"
+                     "sys.exit(c06_check.labels_describe_blocks(%s, sites))\n" % e["name"])
         ctx.violation(key, "checker qn_validbV rejects the labels of the result of `%s` (C06_qn_validb_sound does not apply; the stored labels do not describe the non-zero blocks)" % e["what"],
                       {"op": e["what"], "qn": e["qn"], "qnidx": e["qnidx"], "qntot": e["qntot"], "bond_dims": e["bond_dims"], "case": e["case"]},
                       found=True, repro=repro)
@@ -341,4 +368,8 @@ def run(ctx):
                                    "tree_cases": tstats["cases"], "tree_oracle_checks_incl_live_objects": tstats["checks"], "tree_sector_mode": tstats["sector_mode"],
                                    "tree_label_components": tstats["ncomp"], "tree_exceptions": tstats["exceptions"], "tree_random_rejected": tstats["random_rejected"],
                                    "tree_masks_compared": len(tmcases), "tree_masks_two_site": sum(1 for c in tmcases if c["two"]), "tree_mask_mismatches": len(bad_tmasks),
+                                   "operators_checked (dense invariant + Coq checker + product vs dense)": ostats["operators"], "operator_cases_by_kind": ostats["operator_cases_by_kind"],
+                                   "qr_swap_assertions_skipped": ostats["qr_swap_assertions"], "operator_and_product_exports_to_coq": len(oexports),
+                                   "multi_component_kernel_cases": ostats["kernel_cases"], "state_averaged_runs": ostats["state_averaged_runs"],
+                                   "state_averaged_states": ostats["state_averaged_states"],
                                    "masks_compared": len(mcases), "masks_two_site": sum(1 for c in mcases if c["two"]), "mask_mismatches": len(bad_masks)}}
